@@ -655,6 +655,14 @@ class C38(core.Check):
                         out.append({'acts': [list(a) for a in pre] + [list(a) for a in word]})
                         nex += 1
             hist['exhaustive_schedules_len<=4'] = nex
+        seen = set(core.sha(c) for c in self.corpus())
+        uniq = []
+        for c in out:
+            h = core.sha(c)
+            if h not in seen:
+                seen.add(h)
+                uniq.append(c)
+        out = uniq
         for c in out:
             for k, e in c['acts']:
                 hist[k] = hist.get(k, 0) + 1
@@ -687,7 +695,8 @@ class C38(core.Check):
         return cache[key]
 
     def impl(self, case):
-        self.__dict__.setdefault('_runs', {}).pop(core.sha(case), None)
+        # one run per distinct schedule: observations, model schedule and log must come from the same
+        # run (the order of simultaneous entries may differ between two runs of the same schedule)
         return list(self._replay(case)[0])
 
     def model_term(self, case):
